@@ -325,4 +325,245 @@ theorem lookup_spec (pat : List Nat) (hne : pat ≠ []) (hbmp : ∀ c, c ∈ pat
         exact ⟨ch, hmem, by simp; omega⟩
       simp [hU, hPg, hle] at hnone
 
+/-! ### `Scan` -/
+
+/-- the pattern occurs at `s` in the text as `Scan` reads it (`T i` = `text[i]`, lower-cased when
+    case-insensitive) -/
+def Occ (pat : List Nat) (T : Nat → Option Nat) (s : Nat) : Prop :=
+  ∀ j, j < pat.length → T (s + j) = pat[j]?
+
+/-- the inner loop of `Scan`: either everything down to the head matched, or it stopped at the first
+    disagreement `mt` (from the tail) with the text character `ch` there -/
+theorem inner_spec (pat : List Nat) (T : Nat → Option Nat) : ∀ (mt t2 : Nat), mt ≤ t2 →
+    match inner pat T mt t2 with
+    | .found r => r + mt = t2 ∧ ∀ j i, j < mt → i + mt = t2 + j → T i = pat[j]?
+    | .mismatch m ch => m < mt ∧ (∀ j i, m < j → j < mt → i + mt = t2 + j → T i = pat[j]?) ∧
+        (∀ i, i + mt = t2 + m → T i = some ch) ∧ some ch ≠ pat[m]?
+    | .panic => ∃ i, i < t2 ∧ T i = none := by
+  intro mt
+  induction mt with
+  | zero => intro t2 _; simp [inner]
+  | succ mt ih =>
+    intro t2 h
+    unfold inner
+    cases hT : T (t2 - 1) with
+    | none => exact ⟨t2 - 1, by omega, hT⟩
+    | some ch =>
+      simp only []
+      by_cases hne : (some ch != pat[mt]?) = true
+      · rw [if_pos hne]
+        refine ⟨by omega, fun j i h1 h2 _ => by omega, ?_, by simpa using hne⟩
+        intro i hi
+        have : i = t2 - 1 := by omega
+        rw [this]; exact hT
+      · rw [if_neg hne]
+        have heq : some ch = pat[mt]? := by simpa using hne
+        have := ih (t2 - 1) (by omega)
+        cases hin : inner pat T mt (t2 - 1) with
+        | found r =>
+          rw [hin] at this
+          obtain ⟨h1, h2⟩ := this
+          refine ⟨by omega, ?_⟩
+          intro j i hj hi
+          by_cases hjm : j = mt
+          · have : i = t2 - 1 := by omega
+            rw [this, hT, hjm]; exact heq
+          · exact h2 j i (by omega) (by omega)
+        | mismatch m c2 =>
+          rw [hin] at this
+          obtain ⟨h1, h2, h3, h4⟩ := this
+          refine ⟨by omega, ?_, fun i hi => h3 i (by omega), h4⟩
+          intro j i hj1 hj2 hi
+          by_cases hjm : j = mt
+          · have : i = t2 - 1 := by omega
+            rw [this, hT, hjm]; exact heq
+          · exact h2 j i hj1 (by omega) (by omega)
+        | panic =>
+          rw [hin] at this
+          obtain ⟨i, hi1, hi2⟩ := this
+          exact ⟨i, by omega, hi2⟩
+
+/-- what the outer loop of `Scan` establishes from `test` on (tail positions): a returned start is an
+    occurrence whose tail lies in `[test, endlimit)` and no tail position before it carries an occurrence;
+    `-1` means no tail position in `[test, endlimit)` carries one -/
+theorem scanLoop_spec (pat : List Nat) (hne : pat ≠ []) (hbmp : ∀ c, c ∈ pat → c ≤ 0xffff)
+    (T : Nat → Option Nat) (beglimit endlimit : Nat) (hT : ∀ i, i < endlimit → T i ≠ none) :
+    ∀ (fuel test : Nat), pat.length - 1 ≤ test → endlimit < test + fuel → beglimit ≤ test →
+      match scanLoop (buildLtr pat) false T beglimit endlimit fuel test with
+      | some s => ∃ t, test ≤ t ∧ t < endlimit ∧ s + (pat.length - 1) = t ∧ Occ pat T s ∧
+          ∀ s', test ≤ s' + (pat.length - 1) → s' < s → ¬ Occ pat T s'
+      | none => ∀ s', test ≤ s' + (pat.length - 1) → s' + (pat.length - 1) < endlimit → ¬ Occ pat T s' := by
+  have hlen : 0 < pat.length := List.length_pos_iff.mpr hne
+  obtain ⟨_, hpos, hgs⟩ := positive_spec pat hne
+  intro fuel
+  induction fuel with
+  | zero => intro test _ h _; simp only [scanLoop]; intro s' h1 h2; omega
+  | succ fuel ih =>
+    intro test hlast hfuel hbeg
+    unfold scanLoop
+    simp only [show (buildLtr pat).pattern = pat from rfl, show (buildLtr pat).positive = positiveLtr pat from rfl]
+    by_cases hout : (decide (endlimit ≤ test) || decide (test < beglimit)) = true
+    · rw [if_pos hout]
+      simp only [Bool.or_eq_true, decide_eq_true_eq] at hout
+      intro s' h1 h2; omega
+    · rw [if_neg hout]
+      simp only [Bool.or_eq_true, decide_eq_true_eq, not_or, Nat.not_le, Nat.not_lt] at hout
+      cases hTt : T test with
+      | none => exact absurd hTt (hT test hout.1)
+      | some chTest =>
+        simp only []
+        -- extending the claim of the recursive call over the skipped tail positions
+        have hext : ∀ a, 1 ≤ a →
+            (∀ s', test ≤ s' + (pat.length - 1) → s' + (pat.length - 1) < test + a → ¬ Occ pat T s') →
+            match scanLoop (buildLtr pat) false T beglimit endlimit fuel (test + a) with
+            | some s => ∃ t, test ≤ t ∧ t < endlimit ∧ s + (pat.length - 1) = t ∧ Occ pat T s ∧
+                ∀ s', test ≤ s' + (pat.length - 1) → s' < s → ¬ Occ pat T s'
+            | none => ∀ s', test ≤ s' + (pat.length - 1) → s' + (pat.length - 1) < endlimit → ¬ Occ pat T s' := by
+          intro a ha hskip
+          have := ih (test + a) (by omega) (by omega) (by omega)
+          cases hr : scanLoop (buildLtr pat) false T beglimit endlimit fuel (test + a) with
+          | none =>
+            rw [hr] at this
+            intro s' h1 h2
+            by_cases hlt : s' + (pat.length - 1) < test + a
+            · exact hskip s' h1 hlt
+            · exact this s' (by omega) h2
+          | some s =>
+            rw [hr] at this
+            obtain ⟨t, h1, h2, h3, h4, h5⟩ := this
+            refine ⟨t, by omega, h2, h3, h4, ?_⟩
+            intro s' hs1 hs2
+            by_cases hlt : s' + (pat.length - 1) < test + a
+            · exact hskip s' hs1 hlt
+            · exact h5 s' (by omega) hs2
+        obtain ⟨hl1, hl2⟩ := lookup_spec pat hne hbmp chTest
+        by_cases hne1 : (some chTest != pat[pat.length - 1]?) = true
+        · rw [if_pos hne1]
+          have hne1' : some chTest ≠ pat[pat.length - 1]? := by simpa using hne1
+          -- the bad-character advance
+          have hskip : ∀ a, a ≤ pat.length → (∀ j : Nat, pat[j]? = some chTest → a ≤ pat.length - 1 - j) →
+              ∀ s', test ≤ s' + (pat.length - 1) → s' + (pat.length - 1) < test + a → ¬ Occ pat T s' := by
+            intro a ha1 ha2 s' h1 h2 hocc
+            -- the text character at `test` sits under pattern index `test - s'` of that occurrence
+            have hj := hocc (test - s') (by omega)
+            rw [show s' + (test - s') = test by omega, hTt] at hj
+            have := ha2 (test - s') hj.symm
+            omega
+          cases hl : (buildLtr pat).lookup false chTest with
+          | none =>
+            simp only []
+            exact hext pat.length hlen (hskip pat.length (Nat.le_refl _) (fun j hj => absurd hj (hl2 hl j)))
+          | some v =>
+            simp only []
+            obtain ⟨x1, x2, x3⟩ := hl1 v hl
+            have hv1 : 1 ≤ v := by
+              cases Nat.eq_zero_or_pos v with
+              | inl h0 => exact absurd (x3 h0).symm hne1'
+              | inr h => exact h
+            exact hext v hv1 (hskip v x1 x2)
+        · rw [if_neg hne1]
+          have heq1 : some chTest = pat[pat.length - 1]? := by simpa using hne1
+          have hin := inner_spec pat T (pat.length - 1) test hlast
+          cases hi : inner pat T (pat.length - 1) test with
+          | found r =>
+            rw [hi] at hin
+            simp only []
+            obtain ⟨h1, h2⟩ := hin
+            refine ⟨test, Nat.le_refl _, hout.1, h1, ?_, fun s' hs1 hs2 => by omega⟩
+            intro j hj
+            by_cases hjl : j = pat.length - 1
+            · rw [hjl, show r + (pat.length - 1) = test by omega, hTt]; exact heq1
+            · exact h2 j (r + j) (by omega) (by omega)
+          | panic =>
+            rw [hi] at hin
+            obtain ⟨i, hi1, hi2⟩ := hin
+            exact absurd hi2 (hT i (by omega))
+          | mismatch mt ch =>
+            rw [hi] at hin
+            simp only []
+            obtain ⟨hm1, hm2, hm3, hm4⟩ := hin
+            obtain ⟨p, hp1, hp2, hp3⟩ := hpos mt (by omega)
+            rw [hp1]
+            simp only []
+            obtain ⟨hc1, hc2⟩ := lookup_spec pat hne hbmp ch
+            -- whatever the advance is, it is positive and no later occurrence needs less
+            have hkey : ∀ s', test < s' + (pat.length - 1) → Occ pat T s' →
+                p ≤ s' + (pat.length - 1) - test ∧
+                ∀ v, (buildLtr pat).lookup false ch = some v → mt + v - (pat.length - 1) ≤ s' + (pat.length - 1) - test := by
+              intro s' hs hocc
+              constructor
+              · obtain ⟨v, hv1, hv2, hv3⟩ := hgs mt (s' + (pat.length - 1) - test) hm1 (by omega)
+                  (by
+                    intro j k hj1 hj2 hk
+                    have e1 : T (test + j - (pat.length - 1)) = pat[j]? := by
+                      by_cases hjl : j = pat.length - 1
+                      · rw [hjl, show test + (pat.length - 1) - (pat.length - 1) = test by omega, hTt]; exact heq1
+                      · exact hm2 j _ hj1 (by omega) (by omega)
+                    have e2 := hocc k (by omega)
+                    rw [show s' + k = test + j - (pat.length - 1) by omega] at e2
+                    rw [← e1, e2])
+                  (by
+                    intro k hk heq
+                    have e1 := hm3 (test + mt - (pat.length - 1)) (by omega)
+                    have e2 := hocc k (by omega)
+                    rw [show s' + k = test + mt - (pat.length - 1) by omega, e1] at e2
+                    exact hm4 (by rw [e2, heq]))
+                rw [hp1] at hv1; injection hv1 with hv1; omega
+              · intro v hv
+                obtain ⟨x1, x2, _⟩ := hc1 v hv
+                by_cases hd : s' + (pat.length - 1) - test ≤ mt
+                · have e1 := hm3 (test + mt - (pat.length - 1)) (by omega)
+                  have e2 := hocc (mt - (s' + (pat.length - 1) - test)) (by omega)
+                  rw [show s' + (mt - (s' + (pat.length - 1) - test)) = test + mt - (pat.length - 1) by omega, e1] at e2
+                  have := x2 _ e2.symm
+                  omega
+                · omega
+            have hzero : ¬ Occ pat T (test - (pat.length - 1)) := by
+              intro hocc
+              have e1 := hm3 (test + mt - (pat.length - 1)) (by omega)
+              have e2 := hocc mt (by omega)
+              rw [show test - (pat.length - 1) + mt = test + mt - (pat.length - 1) by omega, e1] at e2
+              exact hm4 e2
+            cases hl : (buildLtr pat).lookup false ch with
+            | none =>
+              simp only []
+              apply hext p hp2
+              intro s' h1 h2 hocc
+              by_cases h0 : s' + (pat.length - 1) = test
+              · exact hzero (by rwa [show test - (pat.length - 1) = s' by omega])
+              · have := (hkey s' (by omega) hocc).1
+                omega
+            | some v =>
+              simp only []
+              apply hext (max p (mt + v - (pat.length - 1))) (by omega)
+              intro s' h1 h2 hocc
+              by_cases h0 : s' + (pat.length - 1) = test
+              · exact hzero (by rwa [show test - (pat.length - 1) = s' by omega])
+              · obtain ⟨k1, k2⟩ := hkey s' (by omega) hocc
+                have := k2 v hl
+                omega
+
+/-- **`Scan`, left-to-right instance.**  A returned index is an occurrence at or after `index` that ends
+    inside the window, and the first such; `-1` means there is none. -/
+theorem scanLtr_spec (pat : List Nat) (hne : pat ≠ []) (hbmp : ∀ c, c ∈ pat → c ≤ 0xffff)
+    (T : Nat → Option Nat) (index beglimit endlimit : Nat) (hT : ∀ i, i < endlimit → T i ≠ none)
+    (hbeg : beglimit ≤ index) :
+    match scanLtr (buildLtr pat) false T index beglimit endlimit with
+    | some s => index ≤ s ∧ s + pat.length ≤ endlimit ∧ Occ pat T s ∧ ∀ s', index ≤ s' → s' < s → ¬ Occ pat T s'
+    | none => ∀ s', index ≤ s' → s' + pat.length ≤ endlimit → ¬ Occ pat T s' := by
+  have hlen : 0 < pat.length := List.length_pos_iff.mpr hne
+  have := scanLoop_spec pat hne hbmp T beglimit endlimit hT (endlimit + 1) (index + pat.length - 1)
+    (by omega) (by omega) (by omega)
+  unfold scanLtr
+  simp only [show (buildLtr pat).pattern = pat from rfl]
+  cases hr : scanLoop (buildLtr pat) false T beglimit endlimit (endlimit + 1) (index + pat.length - 1) with
+  | none =>
+    rw [hr] at this
+    intro s' h1 h2
+    exact this s' (by omega) (by omega)
+  | some s =>
+    rw [hr] at this
+    obtain ⟨t, h1, h2, h3, h4, h5⟩ := this
+    exact ⟨by omega, by omega, h4, fun s' hs1 hs2 => h5 s' (by omega) hs2⟩
+
 end RegexVerif.Lemmas.BoyerMoore
